@@ -30,7 +30,7 @@ import (
 	"verifharness/gal"
 )
 
-const header = "From Coq Require Import Init.Byte.\nFrom CSS Require Import Lib.Base Lib.Cases Model.TPM Model.TPMCases."
+const header = "From Coq Require Import Init.Byte.\nFrom CSS Require Import Lib.Base Lib.Cases Model.TPM Model.TPMPool Model.TPMCases."
 
 const site = "pkg/bootflow/subsystems/trustchains/tpm"
 
